@@ -401,7 +401,18 @@ func (env *Zlisp) ImportBaseTypes() {
 		env.AddGlobal(e.RegisteredName, e)
 	}
 
+	// The registry is shared by every interpreter of the process, and the
+	// record kinds that builtin constructors create on first use (field,
+	// msgmap, ...) are registered in it under the constructor's own name.
+	// A type registered by an earlier interpreter must not replace a
+	// builtin of this one.
+	glob := env.linearstack.elements[0].(*Scope)
 	for _, e := range GoStructRegistry.Userdef {
+		if cur, bound := glob.Map[env.MakeSymbol(e.RegisteredName).number]; bound {
+			if _, isFunc := cur.(*SexpFunction); isFunc {
+				continue
+			}
+		}
 		env.AddGlobal(e.RegisteredName, e)
 	}
 }
